@@ -238,13 +238,17 @@ class Gen:
         r = self.r
         n = r.randint(0, 3)
         params = [self.fresh('p') for _ in range(n)]
+        if n >= 2 and r.random() < 0.15:
+            # the same name twice: the LATER parameter shadows the earlier one
+            params[r.randrange(1, n)] = params[0]
+            self.note('shadow')
         args = [self.expr('int', scope, depth) for _ in range(n)]
         inner = scope + [(p, 'int') for p in params]
         rest = ''
         if self.has('rest') and r.random() < 0.25:
-            rp = self.fresh('r')
+            rp = self.fresh('r') if not params or r.random() < 0.85 else params[-1]      # sometimes the rest parameter reuses a name: it shadows
             rest = (' ' if params else '') + f'& {rp}'
-            inner = inner + [(rp, 'list')]
+            inner = [(p, t) for (p, t) in inner if p != rp] + [(rp, 'list')]
             args += [self.expr('int', scope, depth) for _ in range(r.randint(0, 2))]
             self.note('restparam')
         body = self.expr(ty, inner, depth)
